@@ -213,7 +213,16 @@ def translate():
     except Exception:
         rep['ndmap'] = {'error': out10[-500:]}
         rep['untranslatable'].append({'name': 'utility::nd_map', 'group': 'NdMap', 'why': out10[-500:]})
-    return rep, out + out2 + out3 + out4 + out5 + out6 + out7 + out8 + out9 + out10
+    # the equations of the static_permutation metaprogram (Gen_StaticPerm.v)
+    rc11, out11 = sh([sys.executable, os.path.join(VERIF, 'tools', 'cxx_sperm.py'), REPO, os.path.join(COQ, 'gen', 'Gen_StaticPerm.v')], timeout=300)
+    try:
+        rep['sperm'] = json.loads(out11.strip().split('\n')[-1])
+        for pr in rep['sperm']['problems']:
+            rep['untranslatable'].append({'name': 'static_permutation.hpp', 'group': 'StaticPerm', 'why': pr})
+    except Exception:
+        rep['sperm'] = {'error': out11[-500:]}
+        rep['untranslatable'].append({'name': 'static_permutation.hpp', 'group': 'StaticPerm', 'why': out11[-500:]})
+    return rep, out + out2 + out3 + out4 + out5 + out6 + out7 + out8 + out9 + out10 + out11
 
 
 def coq_makefile():
